@@ -49,8 +49,10 @@ Definition veq (a b : value) : bool :=
 
 (* ---------- closures of the mini-language (defunctionalised; the yarel text is in IterLang.render) ---------- *)
 Inductive fn : Type := AddK (k : Z) | MulK (k : Z) | Tag (t : list byte) | ConstK (k : Z)
-  | PressF (lo : Z) (n : nat).   (* |x| pid(x, lo, n): builds n other ranges lo..lo+1, .., lo..lo+n, returns x *)
-Inductive pr : Type := IsEven | GtK (k : Z) | NeV (v : value) | TrueP | FalseP.
+  | PressF (lo : Z) (n : nat)
+  | DeepK (d : nat) (k : Z).     (* |x| deep(x, d, k): addk(x, k) reached through d nested calls *)   (* |x| pid(x, lo, n): builds n other ranges lo..lo+1, .., lo..lo+n, returns x *)
+Inductive pr : Type := IsEven | GtK (k : Z) | NeV (v : value) | TrueP | FalseP
+  | NotIn (lo hi : Z).           (* |x| notin(x, lo, hi): rejects the run lo <= x < hi *)
 Inductive rd : Type := RSum | RCount.
 
 Definition num_text (z : Z) : list byte := bytes_of_string (show_Z z).
@@ -61,6 +63,7 @@ Definition num_text (z : Z) : list byte := bytes_of_string (show_Z z).
 Definition apply_fn (f : fn) (v : value) : value :=
   match f, v with
   | AddK k, VNum z => VNum (z + k)
+  | DeepK _ k, VNum z => VNum (z + k)
   | MulK k, VNum z => VNum (z * k)        (* generator: k > 0 only (0 * negative prints -0) *)
   | Tag t, VNum z => VStr (num_text z ++ t)
   | Tag t, VStr s => VStr (s ++ t)
@@ -78,6 +81,8 @@ Definition apply_pr (p : pr) (v : value) : bool :=
   | NeV w, _ => negb (veq v w)
   | TrueP, _ => true
   | FalseP, _ => false
+  | NotIn lo hi, VNum z => negb (Z.leb lo z && Z.ltb z hi)
+  | NotIn _ _, _ => true
   end.
 
 (* plus(a, v): same-typed numbers / strings are added, otherwise a *)
@@ -121,6 +126,13 @@ Definition forever_next (cur : Z) : option value * Z := (Some (VNum cur), (cur +
 Definition or_stop (o : option value) : value := match o with Some v => v | None => VStop end.
 
 (* ---------- iterator objects on the heap ---------- *)
+(* a Script instance whose FIELD `next` holds a closure wrapping the class's own next (prelude fn wrap): every call
+   first counts itself in the field `calls`; WScale k multiplies the elements, WLimit n answers the sentinel from
+   the n-th call on, WCount only counts.  vm.rs `invoke` looks at the instance's fields before its class, and
+   IterNext, `it.next()` and the adapters' `self.iterable.next()` all go through `invoke`
+   (side condition C18_side_for_next_by_plain_invoke over gen/ClassSrc.v): every consumer calls the FIELD *)
+Inductive wmode : Type := WScale (k : Z) | WLimit (n : nat) | WCount.
+
 Inductive iobj : Type :=
 | OVecIter (vid : nat) (cur : nat)            (* refers to a vector of the store: sees its mutations *)
 | OTupIter (xs : list value) (cur : nat)
@@ -133,6 +145,7 @@ Inductive iobj : Type :=
 | OBag (items : list value)                   (* user iterable Bag: iter() returns a separate cursor (Script); no next() *)
 | OVBag (vid : nat)                           (* user iterable VBag: iter() returns the built-in iterator of its inner vec *)
 | OChained (vid : nat) (k : Z)                (* user iterable Chained: iter() returns inner.iter().filter(even).map(+k) *)
+| OWrapped (items : list value) (i : nat) (mode : wmode) (calls : nat)
 | ORange (a e : Z)                            (* a Range VALUE a..e held in a variable / vec / field: iter() makes a RangeIter.
                                                  vm.rs build_range hands out ObjRange objects from an 8-entry cache keyed by
                                                  (begin, end); an ObjRange is never written after its creation (C16 models the
@@ -171,6 +184,7 @@ Definition static (o : iobj) : iobj :=
   | OVBag vid => OVBag vid
   | OChained vid k => OChained vid k
   | ORange a e => ORange a e
+  | OWrapped items _ mode _ => OWrapped items 0 mode 0
   | OMap f i => OMap f i
   | OFilter p i => OFilter p i
   end.
@@ -201,6 +215,15 @@ Fixpoint obj_next (fuel : nat) (st : store) (id : nat) : option (value * store) 
         let '(r, c) := count_next hi cur in Some (or_stop r, set_obj st id (OCount hi c))
       | OForever cur =>
         let '(r, c) := forever_next cur in Some (or_stop r, set_obj st id (OForever c))
+      | OWrapped items i mode calls =>
+        let '(v, c) :=
+          match mode with
+          | WLimit n => if n <=? calls then (VStop, i) else let '(r, c) := vec_next items i in (or_stop r, c)
+          | WScale k => let '(r, c) := vec_next items i in
+                        (let v := or_stop r in if derives_stop v then v else apply_fn (MulK k) v, c)
+          | WCount => let '(r, c) := vec_next items i in (or_stop r, c)
+          end in
+        Some (v, set_obj st id (OWrapped items c mode (S calls)))
       | ODeck cards pos =>
         let '(r, c) := vec_next cards pos in Some (or_stop r, set_obj st id (ODeck cards c))
       (* these iterables have no next(): AttributeError in the language; every consumer of core.yl calls iter()
